@@ -105,6 +105,9 @@ class Ctx20:
                 ls = r.stdout.strip().split("\n")
                 fn = ls[0].strip() if ls and ls[0].strip() else "?"
                 loc = ls[1].strip() if len(ls) > 1 else ""
+                if "/harness/" in loc:
+                    # the library function was called by the scenario itself: harness function names are not part of a signature
+                    fn, loc = "caller", "harness/" + loc.split("/harness/")[1]
                 loc = re.sub(r"^.*?/(lib/)", r"\1", loc)
                 loc = re.sub(r":\d+$", "", loc)
                 self.symcache[off] = (fn, loc)
@@ -205,7 +208,9 @@ def analyze(c20, case, line):
         site = msite.group(1) if msite else "?"
         mp = re.search(r"phase=(\w+)", line)
         atfn, atdesc = c20.fn2(at) if at != "-" else ("?", "?")
-        return ("%s:%s:%s:after-failed-alloc-in:%s" % (kind, what, site, atfn),
+        # the signature names only the failing request: how the damage surfaces (SEGV at once, heap corruption noticed
+        # later, abort) can vary from run to run for the same defect
+        return ("%s:after-failed-alloc-in:%s" % (kind, atfn),
                 "%s (%s in %s, phase %s) when the allocation requested by %s fails; replay: %s  | %s"
                 % (kind, what, site, mp.group(1) if mp else "?", atdesc, replay, line[:300]))
     d = parse(line)
